@@ -1,0 +1,33 @@
+//go:build verif
+
+// Contracts for the verification machinery in /verif (govc). Comment-only file.
+
+package badger
+
+// ---- how the persistent driver realises the abstract store state ---------------------------
+// The database is modelled as a ghost key-value state (see /verif/govc/kv.go): kvhas/kvlive(key), kvexp(key),
+// kvget("T", key) and, for stored maps, kvmhas/kvmval("K", "V", key, k). kvkey("prefix", s) is the key
+// fmt.Sprintf("prefix%s", s). The driver's helpers getItem/setItem/setExpiringItem/hasKey and badger's
+// DB.Update/DB.View (commit or roll back as a whole) are built-in models there: their bodies are trusted.
+
+//@ pure nodeKey(id store.NodeID) string = kvkey("vip:node:", string(id))
+//@ pure nonceKey(id string) string = kvkey("vip:nonce:", id)
+
+// nonce[k]: the stored high-water mark; identities without an entry have accepted nothing yet
+//@ abstraction *badgerStore
+//@ absdef nonce[k]    = ite(kvhas(nonceKey(k)), kvget("int64", nonceKey(k)), 0 - 9223372036854775808)
+//@ absdef reg[k]      = kvlive(nodeKey(k))
+//@ absdef node[k]     = kvget("store.Node", nodeKey(k))
+
+// nonceInv: an accepted nonce is remembered for as long as the freshness window could still admit it
+// (an entry only expires once its nonce is older than the window)
+//@ pure nonceInv(s *badgerStore) bool = forall k string :: kvhas(nonceKey(k)) && kvexp(nonceKey(k)) != 0 ==>
+//@        kvexp(nonceKey(k)) >= kvget("int64", nonceKey(k)) + s.nonceExpire
+
+//@ func (*badgerStore).CheckAndSaveNonce
+//@ property C05 C12 C13
+//@ implements store.NonceStore.CheckAndSaveNonce
+//@ requires s.nonceExpire == store.ExpireNonce && nonceInv(s)
+//@ ensures [inv] {C05} nonceInv(s)
+//@ ensures [complete] {C05} old(s.nonce[ID]) < nonce && nonce > clock() - store.ExpireNonce ==> err == nil || !typeis(err, *errors.errorString)
+//@ ensures [one-transaction] {C13} txncount() <= 1
